@@ -93,6 +93,26 @@ def check(inp):
                 if dup:
                     return "%s: table %s has %d entries named \"%s\" (one callable name, several wrappers: only the first is reachable)" % (
                         n, tm.group(1), ents[dup[0]], dup[0])
+        # names given by the input itself (explicit suffix lists, explicit generic names): predictable from the input
+        exp = inp.get("expect") or {}
+        for nm in exp.get("c", []):
+            if not cdefs.get(nm):
+                return "the input names the C wrapper %s (prefix, scope, underscore name, the suffix given in the input) but no " \
+                       "such function is defined; defined: %s" % (nm, sorted(k for k in cdefs if k.split("_")[-1] != "")[:12])
+        if exp.get("generic") or exp.get("bound_generic"):
+            low = "\n".join(open(os.path.join(d, n)).read().lower() for n in names if n.startswith("wrapf") and n.endswith((".f", ".f90")))
+            for g, cnt in (exp.get("generic") or {}).items():
+                specs = []
+                for m in re.finditer(r'^\s*interface\s+%s\s*\n(.*?)^\s*end interface' % re.escape(g.lower()), low, re.M | re.S):
+                    specs += re.findall(r'module procedure\s+(\w+)', m.group(1))
+                if len(specs) != cnt:
+                    return "generic interface %s must list the %d specifics of its C++ name; it lists %d: %s" % (g, cnt, len(specs), specs)
+            for g, cnt in (exp.get("bound_generic") or {}).items():
+                specs = []
+                for m in re.finditer(r'^\s*generic\s*::\s*%s\s*=>\s*([^\n]*(?:&\s*\n[^\n]*)*)' % re.escape(g.lower()), low, re.M):
+                    specs += [x.strip() for x in re.sub(r'&\s*\n\s*&?', '', m.group(1)).split(",") if x.strip()]
+                if len(specs) != cnt:
+                    return "type-bound generic %s must list the %d specifics of its C++ name; it lists %d: %s" % (g, cnt, len(specs), specs)
         # the compilers' verdict on redefinitions
         hdr = ["#ifndef LIB_H", "#define LIB_H", "#include <string>", "#include <vector>", inp.get("header", ""), "#endif"]
         open(os.path.join(d, "lib.hpp"), "w").write("\n".join(hdr) + "\n")
@@ -314,6 +334,74 @@ LIBS += [
 """, "namespace ns1 { void foo(int a); void foo(double a); } namespace ns2 { void foo(int a); void foo(double a); }"),
 ]
 
+PYHEAD = HEAD.replace("wrap_python: false", "wrap_python: true")
+# libraries with names the input itself fixes: (yaml, header, expectations)
+XLIBS = [
+    # the same explicit default_arg_suffix list in every instantiation of a class template
+    (HEAD % "" + """- decl: template<typename T> class Box
+  cxx_template:
+  - instantiation: <int>
+  - instantiation: <double>
+  - instantiation: <long>
+  declarations:
+  - decl: void clear()
+  - decl: void resize(int n, int fill = 0, bool shrink = false)
+    default_arg_suffix:
+    - _n
+    - _fill
+    - _all
+- decl: class Plain
+  declarations:
+  - decl: void resize(int n, int fill = 0, bool shrink = false)
+    default_arg_suffix:
+    - _n
+    - _fill
+    - _all
+""", "template<typename T> class Box { public: void clear(); void resize(int n, int fill = 0, bool shrink = false); };"
+    " class Plain { public: void resize(int n, int fill = 0, bool shrink = false); };",
+     {"c": ["%sBox_%s_resize%s" % ("{P}", t, x) for t in ("int", "double", "long") for x in ("_n", "_fill", "_all")] +
+           ["{P}Plain_resize" + x for x in ("_n", "_fill", "_all")]}),
+    # an explicit generic name on a function with default arguments: one interface with all variants
+    (HEAD % "" + """- decl: double accumulate(double a, double b = 0., double c = 0., double d = 0.)
+  format:
+    F_name_generic: combine
+- decl: class Job
+  declarations:
+  - decl: void run(int n, int m = 1)
+    format:
+      F_name_generic: apply
+""", "double accumulate(double a, double b = 0., double c = 0., double d = 0.); class Job { public: void run(int n, int m = 1); };",
+     {"generic": {"combine": 4}, "bound_generic": {"apply": 2}}),
+    (HEAD % "" + """- decl: void scale(int a, int b = 0)
+- decl: void scale(double a)
+""", "void scale(int a, int b = 0); void scale(double a);", {"generic": {"scale": 3}}),
+    # an assumed-rank method in a class template with two instantiations (fixed defect 61a125e)
+    (HEAD % "" + """- decl: template<typename T> class Box
+  cxx_template:
+  - instantiation: <int>
+  - instantiation: <double>
+  declarations:
+  - decl: void fill(int *a +dimension(..))
+    options:
+      F_assumed_rank_max: 2
+""", "template<typename T> class Box { public: void fill(int *a); };", {"bound_generic": {"fill": 6}}),
+    # an overload that is wrapped for Python only: the Python implementations still get distinct names
+    (PYHEAD % "" + """- decl: void setValue(int v)
+- decl: void setValue(double v)
+- decl: void setValue(long a, long b)
+  options:
+    wrap_c: false
+    wrap_fortran: false
+- decl: class Mix
+  declarations:
+  - decl: void put(int v)
+  - decl: void put(double v)
+    options:
+      wrap_c: false
+      wrap_fortran: false
+""", "void setValue(int v); void setValue(double v); void setValue(long a, long b); class Mix { public: void put(int v); void put(double v); };",
+     {}),
+]
 
 # recorded known finding (replayed by the check): overloaded methods of a class template
 KNOWN_TEMPLATE_OVERLOAD = {"yaml": HEAD % "" + """- decl: template<typename T> class Box
@@ -327,7 +415,18 @@ KNOWN_TEMPLATE_OVERLOAD = {"yaml": HEAD % "" + """- decl: template<typename T> c
 """, "header": "template<typename T> class Box { public: Box(); void put(T v); void put(T v, int times); };"}
 
 
+def _fill(e, prefix):
+    out = dict(e)
+    if "c" in out:
+        out["c"] = [x.replace("{P}", prefix) for x in out["c"]]
+    return out
+
+
 def candidates(seed, around=None):
+    for y, h, e in XLIBS:
+        yield {"yaml": y, "header": h, "expect": _fill(e, "LIB_")}
+        yield {"yaml": y.replace("cxx_header: lib.hpp\n", "cxx_header: lib.hpp\nformat:\n  C_prefix: L_\n"), "header": h,
+               "expect": _fill(e, "L_")}
     for y, h in LIBS:
         yield {"yaml": y, "header": h}
         yield {"yaml": y.replace("cxx_header: lib.hpp\n", "cxx_header: lib.hpp\nformat:\n  C_prefix: L_\n"), "header": h}
